@@ -72,6 +72,8 @@ def run(ctx, spec):
         for k in known:
             w = k.get("witness")
             if not w:
+                # no deterministic witness exists: the finding is announced with what is known about it
+                ctx.known_hits.append("%s: %s" % (k["key"], k["what"]))
                 continue
             if w.get("kind") == "valgrind":
                 # memory-safety witness: the ops are replayed on the implementation under valgrind memcheck
@@ -105,6 +107,21 @@ def run(ctx, spec):
     reported_keys = set()
     for bad in bads:
         k = match_known(known, bad) if bad["kind"] == "oracle" else None
+        if k is not None and k.get("match", {}).get("only_if_not_reproducible"):
+            # a finding that is known only by its symptom (a rare, timing-dependent stall): the failing case is replayed
+            # alone; if it fails again even once it is NOT that finding, and is reported
+            again = 0
+            n = int(k["match"]["only_if_not_reproducible"])
+            for _ in range(n):
+                rc, impl2, _e = C.run_bin(C.E2E if bad["component"] == "stack" else C.CORR, [bad["component"]], bad["ops"], env=bad.get("env"))
+                if rc != 0 or any(l.startswith("ORACLE-FAIL") or l in ("PANIC", "HARNESS-DIED") for l in impl2):
+                    again += 1
+                    break
+            if again:
+                k = None
+            else:
+                ctx.known_hits.append("%s: seen in this run and not reproducible in %d replays of the same case (%s -> %s)" % (
+                    k["key"], n, bad["ops"][bad["at"]][:160], bad["impl"][bad["at"]][:160]))
         if k is not None:
             ctx.cov["oracle_failures"] += 0
             continue
